@@ -70,7 +70,7 @@ def appid_session(seed):
 def sessions(ctx):
     def it(rep):
         yield from sessbase.model_sessions(ctx, rep, 'MC_Session_conns.cfg', 'all interleavings of two connections using the same ids',
-                                           ctx.pick(1000, 15000), override={'MaxLen': ctx.pick(5, 6)},
+                                           ctx.pick(1000, 15000), override={'MaxLen': ctx.pick(4, 5)},
                                            renders=[{'dialect': 'new'}, {'dialect': 'old'}])
         for k in range(ctx.pick(150, 1500)):
             g = gen.SessionGen(ctx.seed * 15485863 + k, nconn=(2, 5), nmsg=(20, 70), junk=0.05, core=True, cmds=0.12 if k % 2 else 0.0, titles=0.12)
